@@ -161,6 +161,90 @@ theorem unescapeString_id (s : Str) (h : NoPercentCode s = true) : unescapeStrin
   rw [List.all_eq_true] at h
   simpa using h _ hm
 
+theorem startsWith_iff_prefix : ∀ (s p : Str), startsWith s p = true ↔ p <+: s := by
+  intro s
+  induction s with
+  | nil =>
+    intro p
+    cases p with
+    | nil => simp [startsWith]
+    | cons a as => simp [startsWith]
+  | cons c cs ih =>
+    intro p
+    cases p with
+    | nil => simp [startsWith]
+    | cons a as =>
+      simp only [startsWith, Bool.and_eq_true, beq_iff_eq, ih as, List.cons_prefix_cons]
+      constructor
+      · rintro ⟨rfl, h⟩; exact ⟨rfl, h⟩
+      · rintro ⟨rfl, h⟩; exact ⟨rfl, h⟩
+
+/-- `occurs` is the substring test -/
+theorem occurs_iff_infix (pat : Str) (hp : pat ≠ []) : ∀ (s : Str), occurs pat s = true ↔ pat <:+: s := by
+  intro s
+  induction s with
+  | nil => simp [occurs, hp]
+  | cons c cs ih =>
+    simp only [occurs, Bool.or_eq_true, ih, startsWith_iff_prefix, List.infix_cons_iff]
+
+theorem npp_iff_occurs : ∀ (s : Str),
+    NoPlaceholderPair s = true ↔ ∀ d, special d = true → occurs [BS, d] s = false := by
+  intro s
+  induction s with
+  | nil => simp [NoPlaceholderPair, occurs]
+  | cons c cs ih =>
+    cases cs with
+    | nil => simp [NoPlaceholderPair, occurs, startsWith]
+    | cons e es =>
+      rw [npp_cons_cons, Bool.and_eq_true, ih]
+      constructor
+      · rintro ⟨h1, h2⟩ d hd
+        have h2' := h2 d hd
+        simp only [occurs, startsWith, Bool.and_true, Bool.or_eq_false_iff] at h2' ⊢
+        refine ⟨?_, h2'⟩
+        by_cases hc : c = BS
+        · by_cases he : e = d
+          · subst hc he; simp [hd] at h1
+          · simp [he]
+        · simp [hc]
+      · intro h
+        refine ⟨?_, fun d hd => ?_⟩
+        · by_cases hs : special e = true
+          · have := h e hs
+            simp only [occurs, startsWith, Bool.and_true, Bool.or_eq_false_iff, beq_self_eq_true] at this
+            simp [this.1]
+          · simp [hs]
+        · have := h d hd
+          simp only [occurs, Bool.or_eq_false_iff] at this ⊢
+          exact this.2
+
+/-- `NoPlaceholderPair` in terms of the standard substring relation -/
+theorem noPlaceholderPair_iff (s : Str) : NoPlaceholderPair s = true ↔
+    ∀ d, (d = ',' ∨ d = ':' ∨ d = ';' ∨ d = '\\') → ¬ ['\\', d] <:+: s := by
+  rw [npp_iff_occurs]
+  constructor
+  · intro h d hd hin
+    have hs : special d = true := by rcases hd with e | e | e | e <;> (rw [e]; decide)
+    have := h d hs
+    rw [← Bool.not_eq_true, occurs_iff_infix _ (by simp)] at this
+    exact this hin
+  · intro h d hd
+    rw [← Bool.not_eq_true, occurs_iff_infix _ (by simp)]
+    refine h d ?_
+    simp only [special, Bool.or_eq_true, beq_iff_eq] at hd
+    rcases hd with ((e | e) | e) | e
+    · exact Or.inl e
+    · exact Or.inr (Or.inl e)
+    · exact Or.inr (Or.inr (Or.inl e))
+    · exact Or.inr (Or.inr (Or.inr e))
+
+/-- `NoPercentCode` in terms of the standard substring relation -/
+theorem noPercentCode_iff (s : Str) : NoPercentCode s = true ↔
+    ¬ ['%', '2', 'C'] <:+: s ∧ ¬ ['%', '3', 'A'] <:+: s ∧ ¬ ['%', '3', 'B'] <:+: s ∧ ¬ ['%', '5', 'C'] <:+: s := by
+  simp only [NoPercentCode, percentCodes, List.all_cons, List.all_nil, Bool.and_true, Bool.and_eq_true,
+    Bool.not_eq_true', ← Bool.not_eq_true, occurs_iff_infix _ (List.cons_ne_nil _ _)]
+
+
 end hazard
 
 /-! ## the placeholder pass on concatenations -/
@@ -369,7 +453,7 @@ theorem scanParts_name_colon (n w : Str) (hn : validToken n = true) :
   have hpos : 0 < n.length := List.length_pos_iff.mpr hc.1
   rw [scanParts_plain _ n 0 (fun c h => ⟨(tokChar_ne' c (validToken_tok n hn c h)).1, (hc.2 c h).2.2.1, (hc.2 c h).1⟩)]
   simp only [scanParts, Nat.zero_add]
-  simp only [falsy_none, beq_self_eq_true, Bool.not_false, Bool.true_and, Bool.or_true, Bool.and_self, if_true]
+  simp only [falsy_none, beq_self_eq_true, Bool.not_false, Bool.true_and, Bool.and_self, if_true]
   exact scanParts_done _ _ _ _ _ hpos hpos
 
 /-- the scan of `NAME;params:rest` for parameter text without colon outside quotes -/
@@ -383,7 +467,7 @@ theorem scanParts_name_params (n ptext w : Str) (hn : validToken n = true) (hb :
   simp only [scanParts, Nat.zero_add]
   have e1 : ((';' : Char) == ':') = false := by decide
   have e2 : ((';' : Char) == DQ) = false := by decide
-  simp only [falsy_none, e1, e2, beq_self_eq_true, Bool.not_false, Bool.true_and, Bool.or_true, Bool.and_self,
+  simp only [falsy_none, e1, e2, beq_self_eq_true, Bool.not_false, Bool.or_true, Bool.and_self,
     if_true, Bool.false_and, Bool.and_false, Bool.false_eq_true, if_false]
   rw [scanParts_balanced _ hpos _ ptext _ false false hb]
   have e3 : ((':' : Char) == DQ) = false := by decide
@@ -1208,6 +1292,295 @@ theorem paramsFromIcal_escaped (p : Params) (hd : ParamDomain p) (hp : p ≠ [])
     simp
 
 
+theorem escapeString_ne_nil (s : Str) (h : s ≠ []) : escapeString s ≠ [] := by
+  rw [escapeString_eq]
+  exact rep2_ne_nil _ _ _ (by simp) _ (rep2_ne_nil _ _ _ (by simp) _ (rep2_ne_nil _ _ _ (by simp) _
+    (rep2_ne_nil _ _ _ (by simp) _ h)))
+
+/-- what `parts()` returns for the parameters of a joined line: same names, same order, every value
+    string sent through both placeholder passes -/
+def readBack (p : Params) : Params := (canon p).map (fun kv => (kv.1, mapPVal viaPlaceholders kv.2))
+
+theorem readBack_keys (p : Params) : (readBack p).map Prod.fst = (canon p).map Prod.fst := by
+  simp [readBack, List.map_map, Function.comp_def]
+
+theorem viaPlaceholders_id (x : Str) (h : Hazardless x) : viaPlaceholders x = x := by
+  unfold viaPlaceholders
+  rw [escapeString_id x h.1, unescapeString_id x h.2]
+
+theorem readBack_eq (p : Params) :
+    List.map (fun kv => (kv.1, unescapePVal kv.2))
+      ((sortByKey p).map (fun kv => (kv.1, canonVal (mapPVal escapeString kv.2)))) = readBack p := by
+  unfold readBack canon
+  simp only [List.map_map]
+  apply List.map_congr_left
+  intro x _
+  simp only [Function.comp, unescapePVal_eq, canonVal_mapPVal, mapPVal_comp]
+  rfl
+
+/-- the split of a joined line for EVERY value text and EVERY parameter map of the domain -/
+theorem parts_lineText_any (n : Str) (p : Params) (v : Str) (hn : validToken n = true) (hd : ParamDomain p) :
+    parts (lineText n p v true) = some (n, readBack p, viaPlaceholders v) := by
+  have hsn : Safe n := safe_of_noBS n (token_noBS n hn)
+  cases p with
+  | nil =>
+    have hs : Safe (n ++ [':']) := hsn.append (by decide)
+    have e : lineText n [] v true = n ++ [':'] ++ v := rfl
+    rw [e]
+    have := parts_name_colon (n ++ [':'] ++ v) n (escapeString v) hn (by
+      rw [escapeString_prefix _ _ hs.1 hs.2]; simp)
+    rw [this]
+    rfl
+  | cons kv r =>
+    have hs := paramDomain_sort (kv :: r) hd
+    have hP := paramsToIcal_noBSEnd (kv :: r) hd
+    have hs1 : Safe (n ++ [';']) := hsn.append (by decide)
+    have e : lineText n (kv :: r) v true =
+        (n ++ [';']) ++ (paramsToIcal (kv :: r) true ++ ([':'] ++ v)) := by
+      simp [lineText]
+    rw [e]
+    have hst : escapeString ((n ++ [';']) ++ (paramsToIcal (kv :: r) true ++ ([':'] ++ v))) =
+        n ++ ';' :: escapeString (paramsToIcal (kv :: r) true) ++ ':' :: escapeString v := by
+      rw [escapeString_prefix _ _ hs1.1 hs1.2, escapeString_append _ _ hP,
+        List.singleton_append, escapeString_cons ':' (by decide)]
+      simp
+    have := parts_name_params _ n (escapeString (paramsToIcal (kv :: r) true)) (escapeString v) hn
+      (balanced_escapeString ':' (Or.inr (Or.inr rfl)) _ (paramsToIcal_balanced_colon _ hd true))
+      (escapeString_ne_nil _ (paramsToIcal_ne_nil _ true (by simp))) hst
+    rw [this, paramsFromIcal_escaped _ hd (by simp), Option.map_some]
+    rw [rekey_eq _ (by simpa [List.map_map, Function.comp_def] using hs.1) (by
+      intro x hx
+      obtain ⟨y, hy, rfl⟩ := List.mem_map.mp hx
+      exact (hs.2 y hy).1)]
+    rw [readBack_eq]
+    rfl
+
+theorem readBack_hazardless (p : Params) (hz : ParamsHazardless p) : readBack p = canon p := by
+  unfold readBack canon
+  rw [List.map_map]
+  apply List.map_congr_left
+  intro kv hkv
+  have hm : kv ∈ p := (sortByKey_perm p).mem_iff.mp hkv
+  have : mapPVal viaPlaceholders (canonVal kv.2) = canonVal kv.2 := by
+    rw [← canonVal_mapPVal]
+    congr 1
+    cases hv : kv.2 with
+    | one x =>
+      have := hz kv hm x (by simp [hv, pvalStrs])
+      simp [mapPVal, viaPlaceholders_id x this]
+    | many xs =>
+      have hm' : xs.map viaPlaceholders = xs := by
+        rw [List.map_congr_left (g := id) (fun x hx => viaPlaceholders_id x (hz kv hm x (by simpa [hv, pvalStrs] using hx)))]
+        simp
+      simp [mapPVal, hm']
+  simp only [Function.comp, this]
+
+
 end escaped
+
+/-! ## `raw_value()` -/
+section raw
+
+/-- `raw_value()`'s walk over a prefix of the line: `none` if it would return inside the prefix
+    or skip a pair that straddles its end, otherwise the quote state after it -/
+def rawScan : Bool → Str → Option Bool
+  | q, [] => some q
+  | q, [c] => if c == BS || (c == ':' && !q) then none else some (if c == DQ then !q else q)
+  | q, c :: d :: cs =>
+    if c == BS && special d then rawScan q cs
+    else if c == ':' && !q then none
+    else rawScan (if c == DQ then !q else q) (d :: cs)
+
+theorem rawValueGo_cons_cons (c d : Char) (rest : Str) (q : Bool) :
+    rawValueGo (c :: d :: rest) q =
+      if c == BS && special d then rawValueGo rest q
+      else if c == ':' && !q then d :: rest
+      else rawValueGo (d :: rest) (if c == DQ then !q else q) := by
+  simp only [rawValueGo, special]
+  rfl
+
+/-- after a prefix that `rawScan` accepts the walk continues on the rest -/
+theorem rawValueGo_prefix (t : Str) (ht : t ≠ []) : ∀ (n : Nat) (s : Str) (q q' : Bool), s.length ≤ n →
+    rawScan q s = some q' → rawValueGo (s ++ t) q = rawValueGo t q' := by
+  intro n
+  induction n with
+  | zero =>
+    intro s q q' hl h
+    have : s = [] := List.length_eq_zero_iff.mp (by omega)
+    subst this
+    simp only [rawScan, Option.some.injEq] at h
+    simp [h]
+  | succ n ih =>
+    intro s q q' hl h
+    match s, hl, h with
+    | [], _, h => simp only [rawScan, Option.some.injEq] at h; simp [h]
+    | [c], _, h =>
+      obtain ⟨e, t', rfl⟩ := List.exists_cons_of_ne_nil ht
+      simp only [rawScan] at h
+      split at h
+      · cases h
+      · next hc =>
+        simp only [Bool.or_eq_true, not_or, Bool.not_eq_true] at hc
+        simp only [Option.some.injEq] at h
+        simp only [List.cons_append, List.nil_append, rawValueGo_cons_cons, hc.1, hc.2, Bool.false_and,
+          Bool.false_eq_true, if_false, h]
+    | c :: d :: cs, hl, h =>
+      simp only [List.length_cons] at hl
+      simp only [rawScan] at h
+      simp only [List.cons_append, rawValueGo_cons_cons]
+      split
+      · next hp => simp only [hp, if_true] at h; exact ih cs q q' (by omega) h
+      · next hp =>
+        simp only [hp, Bool.false_eq_true, if_false] at h
+        split
+        · next hc => simp [hc] at h
+        · next hc =>
+          simp only [hc, Bool.false_eq_true, if_false] at h
+          exact ih (d :: cs) _ q' (by simp; omega) h
+
+theorem rawScan_append : ∀ (n : Nat) (a b : Str) (q q' : Bool), a.length ≤ n → rawScan q a = some q' →
+    rawScan q (a ++ b) = rawScan q' b := by
+  intro n
+  induction n with
+  | zero =>
+    intro a b q q' hl h
+    have : a = [] := List.length_eq_zero_iff.mp (by omega)
+    subst this
+    simp only [rawScan, Option.some.injEq] at h
+    simp [h]
+  | succ n ih =>
+    intro a b q q' hl h
+    match a, hl, h with
+    | [], _, h => simp only [rawScan, Option.some.injEq] at h; simp [h]
+    | [c], _, h =>
+      simp only [rawScan] at h
+      split at h
+      · cases h
+      · next hc =>
+        simp only [Bool.or_eq_true, not_or, Bool.not_eq_true] at hc
+        simp only [Option.some.injEq] at h
+        cases b with
+        | nil => simpa [rawScan, hc.1, hc.2] using h
+        | cons e es =>
+          simp only [List.cons_append, List.nil_append, rawScan, hc.1, hc.2, Bool.false_and,
+            Bool.false_eq_true, if_false, h]
+    | c :: d :: cs, hl, h =>
+      simp only [List.length_cons] at hl
+      simp only [rawScan] at h
+      simp only [List.cons_append, rawScan]
+      split
+      · next hp => simp only [hp, if_true] at h; exact ih cs b q q' (by omega) h
+      · next hp =>
+        simp only [hp, Bool.false_eq_true, if_false] at h
+        split
+        · next hc => simp [hc] at h
+        · next hc =>
+          simp only [hc, Bool.false_eq_true, if_false] at h
+          have := ih (d :: cs) b _ q' (by simp; omega) h
+          simpa using this
+
+/-- `raw_value()` passes over the text outside quotes and ends outside quotes -/
+def RawBal (s : Str) : Prop := rawScan false s = some false
+
+instance (s : Str) : Decidable (RawBal s) := by unfold RawBal; infer_instance
+
+theorem RawBal.append {a b : Str} (ha : RawBal a) (hb : RawBal b) : RawBal (a ++ b) := by
+  unfold RawBal at *
+  rw [rawScan_append a.length a b false false (Nat.le_refl _) ha]; exact hb
+
+/-- text without backslash, colon and double quote is passed over -/
+theorem rawScan_plain : ∀ (s : Str) (q : Bool), BS ∉ s → ':' ∉ s → DQ ∉ s → rawScan q s = some q := by
+  intro s
+  induction s with
+  | nil => intros; rfl
+  | cons c cs ih =>
+    intro q h1 h2 h3
+    have c1 : (c == BS) = false := by simpa using fun e : c = BS => h1 (by simp [e])
+    have c2 : (c == ':') = false := by simpa using fun e : c = ':' => h2 (by simp [e])
+    have c3 : (c == DQ) = false := by simpa using fun e : c = DQ => h3 (by simp [e])
+    have := ih q (fun e => h1 (by simp [e])) (fun e => h2 (by simp [e])) (fun e => h3 (by simp [e]))
+    cases cs with
+    | nil => simp [rawScan, c1, c2, c3]
+    | cons d ds => simp only [rawScan, c1, c2, c3, Bool.false_and, Bool.false_eq_true, if_false, this]
+
+/-- inside quotes everything up to the closing quote is passed over -/
+theorem rawScan_inq : ∀ (n : Nat) (x : Str), x.length ≤ n → DQ ∉ x → rawScan true (x ++ [DQ]) = some false := by
+  intro n
+  induction n with
+  | zero =>
+    intro x hl _
+    have : x = [] := List.length_eq_zero_iff.mp (by omega)
+    subst this
+    decide
+  | succ n ih =>
+    intro x hl hx
+    match x, hl, hx with
+    | [], _, _ => decide
+    | [c], _, hx =>
+      have c3 : (c == DQ) = false := by simpa using fun e : c = DQ => hx (by simp [e])
+      have s : special DQ = false := by decide
+      simp only [List.cons_append, List.nil_append, rawScan, s, c3, Bool.and_false, Bool.not_true,
+        Bool.false_eq_true, if_false]
+      decide
+    | c :: d :: cs, hl, hx =>
+      simp only [List.length_cons] at hl
+      have c3 : (c == DQ) = false := by simpa using fun e : c = DQ => hx (by simp [e])
+      simp only [List.cons_append, rawScan, c3, Bool.not_true, Bool.and_false, Bool.false_eq_true, if_false]
+      split
+      · exact ih cs (by omega) (fun e => hx (by simp [e]))
+      · have := ih (d :: cs) (by simp; omega) (fun e => hx (by simp [e]))
+        simpa using this
+
+theorem dquote_rawBal (x : Str) (hx : DQ ∉ x) : RawBal (dquote x) := by
+  rw [dquote_of_noDQ x hx]
+  split
+  · unfold RawBal
+    have : DQ :: x ++ [DQ] = [DQ] ++ (x ++ [DQ]) := by simp
+    rw [this, rawScan_append 1 [DQ] _ false true (by simp) (by decide)]
+    exact rawScan_inq x.length x (Nat.le_refl _) hx
+  · next hq =>
+    refine rawScan_plain x false (noBS_of_noQuotable x hq) ?_ hx
+    exact fun hm => hq (List.any_eq_true.mpr ⟨':', hm, quotable_colon⟩)
+
+theorem token_rawBal (n : Str) (hn : validToken n = true) : RawBal n :=
+  rawScan_plain n false (token_noBS n hn) (token_noColon n hn) (validToken_noDQ n hn)
+
+theorem paramsToIcal_rawBal (p : Params) (hd : ParamDomain p) (sorted : Bool) :
+    RawBal (paramsToIcal p sorted) := by
+  refine paramsText_ind RawBal (by decide) (fun _ _ => RawBal.append) (by decide) (by decide)
+    (by decide) p sorted ?_ ?_
+  · intro kv hkv
+    have := (hd.2 kv hkv).1
+    rw [this.2]
+    exact token_rawBal _ this.1
+  · intro kv hkv x hx
+    exact dquote_rawBal x (pvalOk_strs kv.2 (hd.2 kv hkv).2 x hx).1
+
+/-- `raw_value()` of a joined line is the value text as written — for every value text and every
+    parameter map of the domain -/
+theorem rawValue_lineText (n : Str) (p : Params) (v : Str) (sorted : Bool) (hn : validToken n = true)
+    (hd : ParamDomain p) : rawValue (lineText n p v sorted) = v := by
+  have hfin : ∀ pre : Str, RawBal pre → rawValue (pre ++ ':' :: v) = v := by
+    intro pre hpre
+    unfold rawValue
+    rw [rawValueGo_prefix _ (by simp) pre.length pre false false (Nat.le_refl _) hpre]
+    cases v with
+    | nil => rfl
+    | cons d ds => simp [rawValueGo_cons_cons, BS]
+  unfold lineText
+  split
+  · have := hfin n (token_rawBal n hn)
+    simpa using this
+  · have := hfin (n ++ [';'] ++ paramsToIcal p sorted)
+      (((token_rawBal n hn).append (by decide)).append (paramsToIcal_rawBal p hd sorted))
+    simpa using this
+
+end raw
+
+/-- a concrete map with hostile values for the non-vacuity checks of C05:
+    `K=a\;L=1:b%3A` and the list `M=[x\ , ;Y=2:]` -/
+def hostileParams : Params :=
+  [(['M'], .many [['x', '\\'], [';', 'Y', '=', '2', ':']]),
+   (['K'], .one ['a', '\\', ';', 'L', '=', '1', ':', 'b', '%', '3', 'A'])]
 
 end ICal
